@@ -7,7 +7,9 @@ def nontrivial(req, obs):
 
 PROP = {
     "id": "C08",
-    "lean_targets": ["WmModel.Props.C08", "WmModel.Props.C08Tie"],
+    "lean_targets": ["WmModel.Props.C08", "WmModel.Props.C08Tie", "WmModel.Props.C08Router", "WmModel.Props.C02Tie"],
+    # handleOne is derived from the handleMessage model: its body is re-extracted and its tie re-proved here too
+    "extract_also": ["C02"],
     "audit_module": "Audit.C08",
     "theorems": [
         "Wm.Route.ctx_values", "Wm.Route.ctx_get", "Wm.Route.ctx5_addHandlerContext_idem",
@@ -21,9 +23,12 @@ PROP = {
         "Wm.Route.unstarted_undecorated", "Wm.Route.failed_attempt_then_retry", "Wm.Route.nil_publisher_never_decorated",
         "Wm.Route.nopub_middleware_outputs_nack", "Wm.Route.routes_to_own_fn", "Wm.Route.route_order_irrelevant",
         "Wm.Route.only_own_function", "Wm.Route.subscriptions_bijective",
+        # handleOne derived from the C02/C03 models (Props/C08Router.lean)
+        "Wm.Route.handleOne_settle_eq_handle", "Wm.Route.handleOne_calls_eq_handle", "Wm.Route.disabled_outputs_nack",
     ],
     # re-proved on every run against lean/WmModel/Gen/RouteCtx.lean, printed by the extractor from router.go / router_context.go
     "tie_theorems": [
+        "Wm.GoHandle.handle_skeleton_eq_model", "Wm.GoHandle.publish_skeleton_eq_model",
         "Wm.RouteGo.model_ctx_law", "Wm.RouteGo.extracted_ctx_law", "Wm.RouteGo.extracted_ctx_simulates_model",
         "Wm.RouteGo.extracted_ctx_describes_empty",
     ],
